@@ -17,6 +17,7 @@ rc=$?
 if [ $rc -ne 0 ]; then git checkout -- .; exit $rc; fi
 git diff --stat | tail -1
 cd /verif
+rm -rf /tmp/ev.bak.$$; cp -r evidence /tmp/ev.bak.$$ 2>/dev/null
 VERIF_SEED=${VERIF_SEED:-7} timeout 1200 ./check $id --tier quick > /tmp/mut.$$.log 2>&1
 rc=$?
 grep -E "^(VIOLATION|OK|INCONCLUSIVE|KNOWN-FINDING)" /tmp/mut.$$.log | head -5
@@ -26,5 +27,5 @@ rm -f /tmp/mut.$$.log
 git -C /repo checkout -- .
 # never leave a replay produced by a mutant behind
 git -C /verif status --porcelain replays 2>/dev/null | awk '{print $2}' | xargs -r rm -rf
-git -C /verif checkout -- evidence 2>/dev/null
+rm -rf /verif/evidence; mv /tmp/ev.bak.$$ /verif/evidence 2>/dev/null
 exit 0
